@@ -289,6 +289,17 @@ impl Engine for C06 {
                 interfere: 0,
             });
         }
+        if (index % 16 == 12 || (tier == Tier::Thorough && index % 16 == 4)) && doc.as_str().is_some() {
+            incs.push(Inc {
+                kind: "child-watch".into(),
+                entropy: e.next_u64(),
+                clock_ns: clock + 33_000_000_000,
+                repeats: 0,
+                env: vec![],
+                stack_mib: 0,
+                interfere: 0,
+            });
+        }
         if index % 2 == 0 {
             incs.push(Inc {
                 kind: "thread-neighbour".into(),
@@ -524,6 +535,31 @@ impl Engine for C06 {
                     if !matches!(o, Outcome::Budget) {
                         obs.push((format!("thread-nb#{j}"), inc.entropy, inc.clock_ns, o));
                     }
+                }
+                "child-watch" => {
+                    // the command in --watch mode, started when an output file which is NEWER than
+                    // the input is already there (left by an earlier run, another configuration)
+                    if !matches!(obs.first().map(|o| &o.3), Some(Outcome::Ok(b)) if !b.is_empty()) {
+                        continue;
+                    }
+                    let dir = run_dir.join(format!("w{j}"));
+                    let junk = vec![b'Z'; 2 * scn.doc.0.len() + 9000];
+                    let w = match watch_session(env, scn.cfg.to_cli_args(), &dir, &[scn.doc.0.clone()], Some(&junk), inc.clock_ns, Duration::from_secs(15)) {
+                        Ok(w) => w,
+                        Err(e) => {
+                            res.harness_error = Some(format!("watch session: {e}"));
+                            return res;
+                        }
+                    };
+                    res.stats.evaluations += 1;
+                    res.stats.frontend("child-watch");
+                    res.stats.probe("watch_started_over_a_newer_output_file");
+                    let o = match w.first() {
+                        Some(o) if o.changed => Outcome::Ok(o.out.clone().unwrap_or_default()),
+                        Some(o) if o.failure_reported => Outcome::Err(String::new()),
+                        _ => Outcome::Panic("the watching command neither rendered nor reported a failure within 15 s".into()),
+                    };
+                    obs.push((format!("child-watch#{j}"), inc.entropy, inc.clock_ns, o));
                 }
                 "server-burst" => {
                     // (for the server an empty rendering is "400 Empty response": see C07)
